@@ -173,6 +173,21 @@ impl Router {
     fn on_request(&self, request: Request) -> bool {
         #[cfg(iwe_verif)]
         let _verif_guard = verif::WorkerGuard::new(request.id.clone());
+        let id = request.id.clone();
+
+        // a handler that panics must not leave the client waiting forever
+        panic::catch_unwind(panic::AssertUnwindSafe(|| self.handle_request(request)))
+            .unwrap_or_else(|_| {
+                self.respond(Response::new_err(
+                    id,
+                    ErrorCode::InternalError as i32,
+                    "request handler panicked".to_string(),
+                ));
+                false
+            })
+    }
+
+    fn handle_request(&self, request: Request) -> bool {
         if request.method == "shutdown" {
             self.respond(Response {
                 id: request.id.clone(),
@@ -192,6 +207,12 @@ impl Router {
                 method: "workspace/applyEdit".to_string(),
                 params: to_value(result).unwrap(),
             }));
+
+            self.respond(Response {
+                id: request.id,
+                result: Some(serde_json::Value::Null),
+                error: None,
+            });
 
             return false;
         }
@@ -240,7 +261,13 @@ impl Router {
                 }
             }),
             default => {
-                panic!("unhandled request: {}", default)
+                debug!("unhandled request: {}", default);
+                self.respond(Response::new_err(
+                    request.id,
+                    ErrorCode::MethodNotFound as i32,
+                    format!("unhandled request: {}", default),
+                ));
+                return false;
             }
         };
 
